@@ -15,19 +15,19 @@ plan('C16',
           'array path; stratum B (modes *_hostorder_arrays) puts at least one on it in every sequence',
      jobs=[
          # stratum A: must be completely clean
-         Job(H, 'buffer', 'plain', quick=300000, thorough=4000000, shards=(8, 16)),
-         Job(H, 'buffer', 'asan', quick=60000, thorough=600000, shards=(8, 16)),
-         Job(H, 'file', 'plain', quick=50000, thorough=600000, shards=(6, 16)),
-         Job(H, 'file', 'asan', quick=20000, thorough=200000, shards=(6, 16)),
-         Job(H, 'socket', 'plain', quick=30000, thorough=300000, shards=(8, 16)),
-         Job(H, 'socket', 'asan', quick=12000, thorough=120000, shards=(8, 16)),
+         Job(H, 'buffer', 'plain', quick=300000, thorough=3000000, shards=(8, 16)),
+         Job(H, 'buffer', 'asan', quick=60000, thorough=400000, shards=(8, 16)),
+         Job(H, 'file', 'plain', quick=50000, thorough=400000, shards=(6, 16)),
+         Job(H, 'file', 'asan', quick=20000, thorough=120000, shards=(6, 16)),
+         Job(H, 'socket', 'plain', quick=12000, thorough=150000, shards=(8, 16)),
+         Job(H, 'socket', 'asan', quick=6000, thorough=60000, shards=(8, 16)),
          # stratum B: arrays of multi-byte elements written in host byte order (the Array<T> fast path)
          Job(H, 'buffer_hostorder_arrays', 'plain', quick=30000, thorough=300000, shards=(2, 8)),
          Job(H, 'buffer_hostorder_arrays', 'asan', quick=10000, thorough=100000, shards=(2, 8)),
          Job(H, 'file_hostorder_arrays', 'plain', quick=8000, thorough=80000, shards=(2, 8)),
          Job(H, 'file_hostorder_arrays', 'asan', quick=4000, thorough=30000, shards=(2, 8)),
-         Job(H, 'socket_hostorder_arrays', 'plain', quick=6000, thorough=50000, shards=(2, 8)),
-         Job(H, 'socket_hostorder_arrays', 'asan', quick=3000, thorough=25000, shards=(2, 8)),
+         Job(H, 'socket_hostorder_arrays', 'plain', quick=3000, thorough=40000, shards=(2, 8)),
+         Job(H, 'socket_hostorder_arrays', 'asan', quick=1500, thorough=20000, shards=(2, 8)),
      ],
      assumptions=COMMON_ASSUME + [
          'host is x86-64 (little endian): NATIVE and LITTLE take the not-swapped paths, BIG the swapped ones; the host order is measured at run time by the harness, independently of ASL_BIGENDIAN',
